@@ -42,6 +42,7 @@ type pathState struct {
 	instrs    int64
 	reached   map[string]bool
 	callLog   []string
+	forged    map[*Term]bool
 }
 
 type hashApp struct {
